@@ -2,6 +2,7 @@ package c05
 
 import (
 	"fmt"
+	"math/rand"
 	"strings"
 )
 
@@ -276,6 +277,84 @@ func LiteralHazards(thorough bool) []Input {
 					out = append(out, ExprInput("literal/expr", strings.TrimLeft(s, "{")))
 				}
 			}
+		}
+	}
+	return out
+}
+
+// ---------------------------------------------------------------------------
+// round 6: the TEXT inside {msg} is scanned a second time by the parser (a
+// regular expression looks for html tags in the raw text)
+
+// msgPieces is the hazard alphabet of message text: "<" followed by each
+// class of character, ">" alone, degenerate and unterminated tags, quotes
+// that contain ">", nesting, comments, entities.
+var msgPieces = []string{"<", ">", "<>", "</>", "<a", "<a>", "</a>", "<a/>", "<3", "<3>", "<3 you -> always", "I <3 you", "->", "=>", "<-", "<=", ">=", "<<", ">>", "<<a>>", "<a<b>>",
+	"< a>", "<a >", "<a b>", "<a b=\"c\">", "<a b=\"c>", "<a b='>'>", "<a href='>'>x</a>", "<a b=\"c>\"d>", "<!", "<!-- c -->", "<!-->", "<!doctype x>", "<?", "<?x?>", "</", "</3>", "</ a>",
+	"<_a>", "<-a>", "<é>", "<aé>", "<a\xff>", "<1a>", "<a1>", "<A>", "<a-b>", "<a:b>", "<a.b>", "<br/>", "<br />", "< >", "<\t>", "<\n>", "<a\nb>", "<a\n>", "&lt;", "&#60;3", "a < b > c", "1<2>1", "x<y", "x>y",
+	"<a phname=\"p\">", "<a phname=\"\">", "<a phname=\"x\" phname=\"y\">", "<a phname=>", " phname=\"q\"", "<b><i>", "</i></b>", "<b></b>", "text", " ", ""}
+
+// MsgTextHazards puts every piece, every pair of pieces, and pieces split by
+// a placeholder / special character / line break, in every part of a message:
+// the body, the cases of a {plural}, the desc and meaning attributes.
+func MsgTextHazards(thorough bool, seed int64) []Input {
+	var out []Input
+	file := func(body string) { out = append(out, FileInput("msgtext/file", hdr+body+"\n{/template}\n")) }
+	attrq := strings.NewReplacer(`\`, `\\`, `"`, `\"`, "\n", `\n`, "\t", `\t`)
+	slots := []func(b string) string{
+		func(b string) string { return `{msg desc="d"}` + b + `{/msg}` },
+		func(b string) string { return `{msg desc="d"}x ` + b + ` y{/msg}` },
+		func(b string) string {
+			return `{msg desc="d"}{plural $n}{case 1}` + b + `{default}` + b + `{/plural}{/msg}`
+		},
+		func(b string) string {
+			return `{msg desc="d"}{plural $n}{case 0}a{case 1}` + b + `{default}z{/plural}{/msg}`
+		},
+		func(b string) string { return `{msg desc="` + attrq.Replace(b) + `"}m{/msg}` },
+		func(b string) string { return `{msg desc="d" meaning="` + attrq.Replace(b) + `"}m{/msg}` },
+		func(b string) string { return `{msg desc="` + b + `"}` + b + `{/msg}` },
+		func(b string) string { return `{msg desc="d"}` + b }, // message left open
+		func(b string) string { return `{if $c}{msg desc="d"}` + b + `{/msg}{/if}` },
+	}
+	seps := []string{"{$x}", "{sp}", "{nil}", "{lb}", "{rb}", "{\\n}", "\n", " \n ", "{print $x|id}", "{call .u /}", "{literal}>{/literal}", "{literal}<{/literal}", "// c\n", "/* c */", "{css a}"}
+	for _, a := range msgPieces {
+		for _, s := range slots {
+			file(s(a))
+		}
+		for _, b := range msgPieces {
+			file(slots[0](a + b))
+			file(slots[0](a + " " + b))
+			file(slots[2](a + b))
+			if thorough {
+				file(slots[1](a + b))
+				file(slots[4](a + b))
+				for _, sep := range seps {
+					file(slots[0](a + sep + b))
+				}
+			}
+		}
+	}
+	// pieces split by a placeholder, a special character, a line break, a
+	// comment: quick takes a seeded third of the pairs
+	if !thorough {
+		r := rand.New(rand.NewSource(seed*6151 + 41))
+		for _, a := range msgPieces {
+			for _, b := range msgPieces {
+				if r.Intn(3) != 0 {
+					continue
+				}
+				sep := seps[r.Intn(len(seps))]
+				file(slots[0](a + sep + b))
+				file(slots[2](a + sep + b))
+			}
+		}
+	}
+	// long runs (regular-expression backtracking, repeated scans)
+	for _, u := range []string{"<", "<3 ", "<a ", "< ", "<a b=\"", "</", "<!--", "<a>", "<3>", "><", "<a<"} {
+		for _, n := range []int{10, 100, 1000} {
+			file(slots[0](strings.Repeat(u, n)))
+			file(slots[0](strings.Repeat(u, n) + ">"))
+			file(slots[2](strings.Repeat(u, n) + ">"))
 		}
 	}
 	return out
